@@ -191,6 +191,56 @@ void hv_case(uint64_t index)
     if (tg_config_apply(t, &c)) { hv_stat("config_rejected", 1); hwloc_topology_destroy(t); t = NULL; }
     else if (hwloc_topology_load(t) < 0) { hv_stat("loads_failed.live", 1); hwloc_topology_destroy(t); t = NULL; }
     if (t) examine(t, "live", 42, &c);
+  } else if (cls == 2 && k % 2 == 0) {           /* XML of a generated machine with CPU-less NUMA nodes below memory Groups */
+    /* what the Linux back end builds for CXL/HBM/PMEM nodes without CPUs, which synthetic descriptions cannot express: the v3 export of a
+     * generated description gets 1-2 <Group kind=memory (cpuset 0x0)> <NUMANode (cpuset 0x0)> children appended to the Machine, whose
+     * three nodesets gain the new bits; the result is a valid document and is loaded under a random configuration */
+    struct tg_synth_opts o; tg_synth_opts_default(&o); o.max_pus = 48; if (hv_chance(&R, 1, 2)) o.max_levels = 3;
+    struct hv_str d; hv_str_init(&d); tg_synth_random(&R, &o, &d);
+    struct tg_config c0; tg_config_default(&c0); int st0; hwloc_topology_t t0 = tl_load_synthetic(d.s, &c0, &st0);
+    tg_config_random(&R, &c, 0); tg_config_str(&c, &cs);
+    hv_desc("xml export of synthetic \"%s\" with CPU-less NUMA nodes injected, config %s\n", d.s, cs.s);
+    hv_str_free(&d);
+    char *xb = NULL; int xl = 0;
+    if (t0 && hwloc_topology_export_xmlbuffer(t0, &xb, &xl, 0) == 0) {
+      int lastnode = hwloc_bitmap_last(hwloc_topology_get_complete_nodeset(t0)); unsigned nadd = 1 + (unsigned)hv_below(&R, 2);
+      struct hv_str x; hv_str_init(&x);
+      /* rewrite the three nodeset attributes of the first <object (the Machine) */
+      const char *p = xb, *mach = strstr(xb, "<object "), *mend = mach ? strchr(mach, '>') : NULL;
+      if (mach && mend) {
+        hv_str_addn(&x, p, (size_t)(mach - p));
+        const char *q = mach;
+        while (q < mend) {
+          const char *ns = NULL; static const char *const names[] = { " nodeset=\"", " complete_nodeset=\"", " allowed_nodeset=\"" };
+          size_t nl = 0; for (unsigned w = 0; w < 3; w++) if (!strncmp(q, names[w], strlen(names[w]))) { ns = q; nl = strlen(names[w]); }
+          if (!ns) { hv_str_addn(&x, q, 1); q++; continue; }
+          const char *ve = strchr(q + nl, '"'); char val[600]; size_t vl = (size_t)(ve - (q + nl)); if (vl >= sizeof val) vl = sizeof val - 1; memcpy(val, q + nl, vl); val[vl] = 0;
+          hwloc_bitmap_t b = hwloc_bitmap_alloc(); hwloc_bitmap_sscanf(b, val); for (unsigned a2 = 0; a2 < nadd; a2++) hwloc_bitmap_set(b, (unsigned)(lastnode + 1 + (int)a2));
+          char nv[600]; hwloc_bitmap_snprintf(nv, sizeof nv, b); hwloc_bitmap_free(b);
+          hv_str_addn(&x, q, nl); hv_str_add(&x, "%s", nv); q = ve;
+        }
+        /* append the memory Groups right before the Machine's closing tag = the last </object> of the document */
+        const char *last = NULL; for (const char *z = mend; (z = strstr(z, "</object>")) != NULL; z++) last = z;
+        if (last) {
+          hv_str_addn(&x, mend, (size_t)(last - mend));
+          for (unsigned a2 = 0; a2 < nadd; a2++) { char nsv[600]; hwloc_bitmap_t b = hwloc_bitmap_alloc(); hwloc_bitmap_set(b, (unsigned)(lastnode + 1 + (int)a2)); hwloc_bitmap_snprintf(nsv, sizeof nsv, b); hwloc_bitmap_free(b);
+            int grouped = !(a2 == 1 && hv_chance(&R, 1, 2));      /* the second node is sometimes attached to the Machine directly */
+            if (grouped) hv_str_add(&x, "<object type=\"Group\" cpuset=\"0x0\" complete_cpuset=\"0x0\" nodeset=\"%s\" complete_nodeset=\"%s\" gp_index=\"%u\" id=\"obj%u\" kind=\"1001\" subkind=\"0\">", nsv, nsv, 900000 + a2 * 2, 900000 + a2 * 2);
+            hv_str_add(&x, "<object type=\"NUMANode\" os_index=\"%d\" cpuset=\"0x0\" complete_cpuset=\"0x0\" nodeset=\"%s\" complete_nodeset=\"%s\" gp_index=\"%u\" id=\"obj%u\" local_memory=\"8589934592\"/>", lastnode + 1 + (int)a2, nsv, nsv, 900001 + a2 * 2, 900001 + a2 * 2);
+            if (grouped) hv_str_add(&x, "</object>"); }
+          hv_str_add(&x, "%s", last);
+          hv_ctxkey("load:xml:cpuless_injected");
+          char *exact = hv_exact_dup(x.s, x.len + 1);
+          t = tl_load_xmlbuffer(exact, x.len + 1, &c, &stage);
+          free(exact);
+          if (!t) { hv_stat(stage == 2 ? "config_rejected" : "loads_failed.xml_cpuless_injected", 1); if (stage != 2 && HV.verbose) printf("%s\n", x.s); }
+          else { hv_stat("loads_ok.xml_cpuless_injected", 1); examine(t, "xml", hv_hash_u64(nadd, 77), &c); }
+        }
+      }
+      hv_str_free(&x);
+      hwloc_free_xmlbuffer(t0, xb);
+    }
+    if (t0) hwloc_topology_destroy(t0);
   } else {                                       /* synthetic */
     struct tg_synth_opts o; tg_synth_opts_default(&o);
     if (cls == 7) { o.max_levels = 12; o.max_pus = 1024; }
